@@ -449,3 +449,84 @@ func (w *World) funcFamily(root *ssa.Function) []*ssa.Function {
 	walk(root, 0)
 	return out
 }
+
+// forwardsTo: fn does nothing but hand its parameters to one function of its own package and return that function's
+// results unchanged (an exported constructor kept as a thin front of an unexported one, e.g. behind an interface for
+// its argument). Returns that function, or nil.
+func forwardsTo(fn *ssa.Function) *ssa.Function {
+	if fn == nil || len(fn.Blocks) != 1 {
+		return nil
+	}
+	var call *ssa.Call
+	for _, in := range fn.Blocks[0].Instrs {
+		switch x := in.(type) {
+		case *ssa.Call:
+			if call != nil {
+				return nil
+			}
+			call = x
+		case *ssa.Extract, *ssa.MakeInterface, *ssa.ChangeInterface, *ssa.ChangeType, *ssa.DebugRef:
+		case *ssa.Return:
+			if call == nil {
+				return nil
+			}
+			g := call.Call.StaticCallee()
+			if g == nil || g.Pkg != fn.Pkg || len(g.Blocks) == 0 {
+				return nil
+			}
+			for i, rv := range x.Results {
+				if len(x.Results) == 1 && rv == ssa.Value(call) {
+					continue
+				}
+				ex, ok := rv.(*ssa.Extract)
+				if !ok || ex.Tuple != ssa.Value(call) || ex.Index != i {
+					return nil
+				}
+			}
+			return g
+		default:
+			return nil
+		}
+	}
+	return nil
+}
+
+// LoaderFunc: the function whose body does the work of the named loader (forwarding fronts are seen through).
+func (w *World) LoaderFunc(rel, name string) *ssa.Function {
+	fn := w.Func(rel, name)
+	for i := 0; i < 3 && fn != nil; i++ {
+		g := forwardsTo(fn)
+		if g == nil {
+			break
+		}
+		fn = g
+	}
+	return fn
+}
+
+// configUnmarshalArgs: c decodes a configuration section: (*config.Config).Unmarshal(key, target), also through an
+// interface of the repository's own that *config.Config satisfies.
+func configUnmarshalArgs(w *World, c *ssa.Call) (key, target ssa.Value, ok bool) {
+	cc := c.Common()
+	if cc.IsInvoke() {
+		if cc.Method.Name() != "Unmarshal" || len(cc.Args) != 2 {
+			return nil, nil, false
+		}
+		it, isI := cc.Value.Type().Underlying().(*types.Interface)
+		if !isI {
+			return nil, nil, false
+		}
+		for _, p := range w.Prog.AllPackages() {
+			if p.Pkg.Path() == "github.com/TheCacophonyProject/go-config" {
+				if tn, ok := p.Members["Config"].(*ssa.Type); ok && types.Implements(types.NewPointer(tn.Type()), it) {
+					return cc.Args[0], cc.Args[1], true
+				}
+			}
+		}
+		return nil, nil, false
+	}
+	if calleeName(c) == "config.Config.Unmarshal" && len(cc.Args) == 3 {
+		return cc.Args[1], cc.Args[2], true
+	}
+	return nil, nil, false
+}
